@@ -44,12 +44,16 @@ class StringSimplifyConstant:
     def mutations(self, node):
         yield Simplification({node.id: Node('""')}, [])
         content = node[1:-1]
+        shorter = []
         for sec in nodes.binary_search(len(content)):
             start = self.__fix_escape_sequences(content, sec[0])
-            yield Simplification(
-                {node.id: Node(f'"{content[:start]}{content[sec[1]:]}"')}, [])
-        yield Simplification({node.id: Node(f'"{content[1:]}"')}, [])
-        yield Simplification({node.id: Node(f'"{content[:-1]}"')}, [])
+            shorter.append(f'{content[:start]}{content[sec[1]:]}')
+        shorter.append(content[1:])
+        shorter.append(content[:-1])
+        for s in shorter:
+            # do not cut a doubled quote (the escape for a quote) in half
+            if '"' not in s.replace('""', ''):
+                yield Simplification({node.id: Node(f'"{s}"')}, [])
 
     def global_mutations(self, node, input_):
         for simp in self.mutations(node):
